@@ -40,6 +40,16 @@ CLAIMED = {
     "C06": dict(level="model_checking",
                 text=_L_TEXT + "; an adversarial replica (Tamper action) replaces any entry it holds by an unsigned / mis-signed / keyless / wrong-key / payload-edited / foreign-id copy at every position (candidate or not), access controllers deny a writer or everybody, and the exploration is repeated for the default, link-encrypting and legacy protobuf codecs; ground truth about validity comes from the script, never from Verify",
                 note=_L_NOTE + "; a panic on a library goroutine (process crash) is reported as a violation with the crashing script isolated by re-running it alone", technique=_L_TECH),
+    "C07": dict(level="exploration",
+                text="Codec.tla models the signing view the code implements (toBuffer/ToHashable, incl. json.Marshal's treatment of invalid UTF-8) with an ideal signature, so 'tamper evident' = 'the map from signed parts to signing view is injective'; TLC checks that on every abstract entry (payloads over 8 byte classes, link lists, ids, clocks, versions, keys) and exports every single-part modification and every signature substitution as an obligation; each is concretised with several real byte strings per class, signed and verified by the real code; TLC validates the observed verdicts (Layer P: modified entry must not verify) and that the code accepts exactly what the modelled signing view cannot distinguish (Layer M)",
+                note="exploration, not model checking: the universal over bytes is sampled through class representatives; secp256k1 trusted; one format-level known finding (invalid UTF-8 payload bytes collapse) is listed in known_findings.json",
+                technique="TLA+ spec Codec.tla (ideal-signature model of the signing view) checked by TLC, which also enumerates the obligation matrix; obligations evaluated on the real code; verdicts validated by TLC against Trace_Codec.tla"),
+    "C08": dict(level="exploration",
+                text="TLC enumerates every entry shape of Codec.tla (8 payload classes incl. all 256 byte values, invalid UTF-8, NUL, 70 kB; next/refs nil/empty/one/two; four clock classes; default and link-encrypting codec); each is written and read back by the real code and compared field by field, re-encoded (same identifier with the default codec), encoded again (determinism) and encoded in two separate processes (identical identifiers); the pinned interoperability vectors (literal CIDs, identity signatures, legacy v0 protobuf blocks) must stay bit-exact; verdicts validated by TLC",
+                note="byte classes are sampled; refmt/cbor and go-cid trusted", technique="TLA+ spec Codec.tla enumerates shapes (TLC); real encode/decode round trips; verdicts validated by TLC against Trace_Codec.tla"),
+    "C12": dict(level="exploration",
+                text="TLC enumerates the wire-shape lattice of Codec.tla: every field of an entry (v2 CBOR, legacy v0 JSON/protobuf), of its clock, identity and signatures, and of a manifest x {absent, null, wrong type, bad value} (pairs of deviations in the thorough tier); each is encoded as well-formed CBOR/JSON and decoded by the real code under recover, every accessor, comparison, Verify, Sort, FindHeads is then called on whatever was returned; plus random, truncated, bit-flipped and spliced byte strings; the loader clause reuses the fetcher machinery (Fetcher.tla + scheduler) with malformed blocks planted at every position of stored logs: the rest of the history must load, on every schedule",
+                note="arbitrary bytes are sampled (400 / 6000 strings); a panic on a fetcher goroutine (process crash) is reported as a violation", technique="TLA+ spec Codec.tla enumerates wire shapes (TLC); real decoding under recover; loader clause via Fetcher.tla schedules on the real fetcher; verdicts validated by TLC (Trace_Codec.tla, Trace_Fetcher.tla)"),
     "C09": dict(level="model_checking", text=_F_TEXT + "; unlimited reload through the manifest, the JSON head list, the head entries and (single-headed logs) the head hash, compared with the original replica (id, entries, heads, linearised values)", note=_F_NOTE, technique=_F_TECH),
     "C10": dict(level="model_checking", text=_F_TEXT + "; every limit 0..size+1 for the four loaders; count and content (supplied entries plus the newest others) on every schedule", note=_F_NOTE, technique=_F_TECH),
     "C11": dict(level="model_checking", text=_F_TEXT + "; every single faulty block x {missing, error, undecodable} (pairs in the thorough tier), a never-answering block with a deadline fired at a TLC-chosen point, excluded and duplicate starting hashes; termination is a liveness property of the model under weak fairness and 'the call returns once everything parked is released' on the real code; real-time runs with the loader's own Timeout option", note=_F_NOTE, technique=_F_TECH),
